@@ -79,7 +79,7 @@ func (s Snap) Canon() string {
 func (s Snap) Msg() *message.Message {
 	m := message.NewMessage(s.UUID, append([]byte(nil), s.Payload...))
 	for k, v := range s.Meta {
-		m.Metadata.Set(k, v)
+		m.Metadata[k] = v // direct assignment: the harness must not depend on Metadata.Set
 	}
 	return m
 }
